@@ -276,3 +276,68 @@ func listMismatch(got, must, may []string) string {
 	}
 	return ""
 }
+
+// StaleOracle computes, for a judged run without -run, which entries and files
+// must be reported obsolete and which may be (skip-protected: exempt either way).
+func StaleOracle(lab *Lab, res *RunResult, a *Analysis, own *Owned, prot *Protection, lc *LabCase) (mustT, mayT, mustF, mayF []string, ok bool) {
+	snapsSkipped := map[string]bool{}
+	for t, w := range lc.SkipNodes {
+		if w != "plain" && a.Skipped[t] > 0 {
+			snapsSkipped[t] = true
+		}
+	}
+	addrEntry := map[[2]string]bool{}
+	addrFile := map[string]bool{}
+	multiAddr := map[string]bool{}
+	visited := map[string]bool{}
+	for _, cr := range a.Calls {
+		addrFile[cr.Path] = true
+		visited[filepath.Dir(cr.Path)] = true
+		if !cr.Call.Standalone() {
+			addrEntry[[2]string{cr.Path, vkit.SlotID(cr.Test, cr.K)}] = true
+			multiAddr[cr.Path] = true
+		}
+	}
+	for f := range multiAddr {
+		pre, torn := lab.preEntries(res, f)
+		if len(torn) > 0 {
+			return nil, nil, nil, nil, false
+		}
+		for _, e := range pre {
+			if addrEntry[[2]string{f, e.ID}] {
+				continue
+			}
+			if _, ex := ancestorOrSelf(snapsSkipped, idTest(e.ID)); ex {
+				mayT = append(mayT, e.ID)
+			} else {
+				mustT = append(mustT, e.ID)
+			}
+		}
+	}
+	for root, dg := range res.Pre {
+		for rel, e := range dg {
+			if e.Type != "f" {
+				continue
+			}
+			p := filepath.Join(root, rel)
+			if !visited[filepath.Dir(p)] || !strings.Contains(filepath.Base(p), ".snap") || addrFile[p] {
+				continue
+			}
+			exempt := false
+			if t, ok := own.SAFile[p]; ok && prot.Reason[t] == "skip" {
+				exempt = true
+			}
+			for t := range own.FileOwn[p] {
+				if prot.Reason[t] == "skip" {
+					exempt = true
+				}
+			}
+			if exempt {
+				mayF = append(mayF, p)
+			} else {
+				mustF = append(mustF, p)
+			}
+		}
+	}
+	return mustT, mayT, mustF, mayF, true
+}
